@@ -59,6 +59,12 @@ fn decoded(input: &[u8]) -> Value {
                 None => (Value::Null, false),
                 Some(e) => (Value::String(hex(&cbor_bytes(e))), has_float(e)),
             };
+            // ciborium re-encodes floats at the shortest exact width: byte comparison is skipped for them
+            let key_float = match &ad.attested_credential_data {
+                None => false,
+                Some(a) => has_float(&a.key.clone().to_cbor_value().expect("key to value")),
+            };
+            let ext_float = ext_float || key_float;
             let same = re == input;
             // to_vec() of the result is a strict prefix of the input (trailing bytes were ignored)
             let re_prefix = if !same && re.len() < input.len() && input[..re.len()] == re[..] {
@@ -86,7 +92,7 @@ fn run_case(case: &Value) -> Value {
         // {"op":"encode","rp":str,"counter":null|u32,"steps":[step,...]}
         // step = {"flags":bits} | {"acd":{"aaguid":hex,"id":hex,"key":{..}}}
         //      | {"mc":null|{"hmac_secret":null|bool,"hmac_secret_mc":null|hex}}
-        //      | {"ga":null|{"hmac_secret":null|hex}} | {"raw":null|hex}   (assignment to the pub field)
+        //      | {"ga":null|{"hmac_secret":null|hex}} | {"raw":null|hex} | {"acd_raw":{..}}   (assignments to the pub fields)
         "encode" => {
             let counter = case["counter"].as_u64().map(|c| u32::try_from(c).expect("u32 counter"));
             let mut ad = AuthenticatorData::new(case["rp"].as_str().unwrap(), counter);
@@ -105,6 +111,18 @@ fn run_case(case: &Value) -> Value {
                             build_key(&arg["key"]),
                         ) {
                             Ok(a) => ad = ad.set_attested_credential_data(a),
+                            Err(_) => return json!({"acd_err": true}),
+                        }
+                    }
+                    "acd_raw" => {
+                        // assignment to the pub field: no flag is touched
+                        let aaguid: [u8; 16] = get_hex(arg, "aaguid").try_into().expect("aaguid len");
+                        match AttestedCredentialData::new(
+                            Aaguid(aaguid),
+                            get_hex(arg, "id"),
+                            build_key(&arg["key"]),
+                        ) {
+                            Ok(a) => ad.attested_credential_data = Some(a),
                             Err(_) => return json!({"acd_err": true}),
                         }
                     }
